@@ -9,6 +9,7 @@ import (
 	"regexp"
 	"sort"
 	"strings"
+	"sync"
 	"testing"
 	"time"
 )
@@ -78,9 +79,9 @@ type ProcResult struct {
 	SiteFaults map[string]int    `json:"site_faults"`
 	// real-SQL mode accounting: runs in which the storage layer's data methods ran for real over the SQL
 	// interpreter, and how many of those were inconclusive because a statement was outside its grammar
-	RealSQLRuns       int    `json:"real_sql_runs"`
-	UnsupportedRuns   int    `json:"unsupported_sql_runs"`
-	UnsupportedSample string `json:"unsupported_sql_sample,omitempty"`
+	RealSQLRuns       int        `json:"real_sql_runs"`
+	UnsupportedRuns   int        `json:"unsupported_sql_runs"`
+	UnsupportedSample string     `json:"unsupported_sql_sample,omitempty"`
 	Enum              *EnumStats `json:"enumeration,omitempty"`
 }
 
@@ -88,6 +89,16 @@ type ReportedV struct {
 	Violation
 	Replay string `json:"replay"`
 	Run    int    `json:"run"`
+}
+
+var knownCache struct {
+	once sync.Once
+	ks   []KnownFinding
+}
+
+func knownFindings() []KnownFinding {
+	knownCache.once.Do(func() { knownCache.ks = loadKnown() })
+	return knownCache.ks
 }
 
 func loadKnown() []KnownFinding {
@@ -121,9 +132,20 @@ func matchKnown(ks []KnownFinding, v Violation) *KnownFinding {
 	return nil
 }
 
+// hasClause: a violation of that clause that is not a listed known finding (so that minimisation and replay of
+// a new violation never settle on a known finding that shares its clause).
+// tagOf: the trailing "[...]" of a violation's detail (the shape the oracle attributes it to), if any: one
+// replay file is written per clause and shape.
+func tagOf(detail string) string {
+	if i := strings.LastIndex(detail, "["); i >= 0 && strings.HasSuffix(detail, "]") {
+		return detail[i:]
+	}
+	return ""
+}
+
 func hasClause(vs []Violation, prop, clause string) *Violation {
 	for i := range vs {
-		if vs[i].Property == prop && vs[i].Clause == clause {
+		if vs[i].Property == prop && vs[i].Clause == clause && matchKnown(knownFindings(), vs[i]) == nil {
 			return &vs[i]
 		}
 	}
@@ -244,8 +266,8 @@ func genScenario(p Profile, rs uint64, tier string) (*Scenario, *ExploreCfg) {
 		sc.Knobs.RealSQL = false
 	}
 	if sc.Worker != nil {
-		// the replication world does not go through the ledger store's data methods
-		sc.Knobs.RealSQL = false
+		// the replication world: in the real-SQL runs the writers' data statements, the pipelines' log reads
+		// (real storage driver + Logs().Paginate) run for real; the system store independently in half
 		sc.Knobs.RealSysSQL = RunSeed(0x737973, rs)%2 == 0
 		switch os.Getenv("VERIF_SQL") {
 		case "real":
@@ -304,7 +326,7 @@ func TestSim(t *testing.T) {
 	if len(ps) == 0 {
 		t.Fatalf("no profile for %s", *fProperty)
 	}
-	known := loadKnown()
+	known := knownFindings()
 	start := time.Now()
 	out := &ProcResult{Property: *fProperty, Tier: *fTier, Seed: *fSeed, Fired: map[string]int{}, Probes: map[string]int{}, Profiles: map[string]int{}, OutcomeMix: map[string]int{}, Sites: map[string]int{}, SiteFaults: map[string]int{}}
 	traces := map[string]bool{}
@@ -312,64 +334,64 @@ func TestSim(t *testing.T) {
 	knownSeen := map[string]bool{}
 	reported := map[string]bool{}
 	handle := func(pname string, run int, rs uint64, sc *Scenario, recorded Plan, res *RunResult) {
-	for _, v := range res.Violations {
-		if k := matchKnown(known, v); k != nil {
-			line := fmt.Sprintf("KNOWN-FINDING: property=%s %s", k.Property, k.What)
-			if !knownSeen[line] {
-				knownSeen[line] = true
-				out.Known = append(out.Known, line)
-			}
-			continue
-		}
-		key := v.Property + "|" + v.Clause
-		if reported[key] {
-			continue
-		}
-		reported[key] = true
-		// minimise and write the replay file
-		msc, mplan, mres := minimise(t, cloneScenario(sc), recorded, v.Property, v.Clause)
-		stable := func(s *Scenario, pl Plan, digest string) *RunResult {
-			var last *RunResult
-			for i := 0; i < 2; i++ {
-				r := RunScenario(t, cloneScenario(s), &pl, nil)
-				if r.Harness != nil || r.Digest != digest || hasClause(r.Violations, v.Property, v.Clause) == nil {
-					return nil
+		for _, v := range res.Violations {
+			if k := matchKnown(known, v); k != nil {
+				line := fmt.Sprintf("KNOWN-FINDING: property=%s %s", k.Property, k.What)
+				if !knownSeen[line] {
+					knownSeen[line] = true
+					out.Known = append(out.Known, line)
 				}
-				last = r
+				continue
 			}
-			return last
-		}
-		if mres != nil && stable(msc, mplan, mres.Digest) == nil {
-			// The minimised schedule only fails some of the time (the system under test has choices the
-			// simulator does not own, e.g. select among channels that are ready at once): fall back to
-			// the schedule as recorded.
-			msc, mplan, mres = cloneScenario(sc), recorded, nil
-			if r := RunScenario(t, cloneScenario(sc), &recorded, nil); r.Harness == nil && hasClause(r.Violations, v.Property, v.Clause) != nil && stable(sc, recorded, r.Digest) != nil {
-				mres = r
+			key := v.Property + "|" + v.Clause
+			if reported[key] {
+				continue
 			}
-		}
-		rf := ReplayFile{Version: 1, Property: v.Property, Profile: pname, Seed: *fSeed, Run: run, RunSeed: rs, Scenario: msc, Plan: mplan, Clause: v.Clause, Detail: v.Detail}
-		if mres != nil {
-			rf.Digest = mres.Digest
-			if mv := hasClause(mres.Violations, v.Property, v.Clause); mv != nil {
-				rf.Detail = mv.Detail
+			reported[key] = true
+			// minimise and write the replay file
+			msc, mplan, mres := minimise(t, cloneScenario(sc), recorded, v.Property, v.Clause)
+			stable := func(s *Scenario, pl Plan, digest string) *RunResult {
+				var last *RunResult
+				for i := 0; i < 2; i++ {
+					r := RunScenario(t, cloneScenario(s), &pl, nil)
+					if r.Harness != nil || r.Digest != digest || hasClause(r.Violations, v.Property, v.Clause) == nil {
+						return nil
+					}
+					last = r
+				}
+				return last
 			}
-		} else {
-			// no recorded schedule reproduces it reliably: the replay file re-runs the exploration run
-			// itself (seed and run index decide everything the simulator owns)
+			if mres != nil && stable(msc, mplan, mres.Digest) == nil {
+				// The minimised schedule only fails some of the time (the system under test has choices the
+				// simulator does not own, e.g. select among channels that are ready at once): fall back to
+				// the schedule as recorded.
+				msc, mplan, mres = cloneScenario(sc), recorded, nil
+				if r := RunScenario(t, cloneScenario(sc), &recorded, nil); r.Harness == nil && hasClause(r.Violations, v.Property, v.Clause) != nil && stable(sc, recorded, r.Digest) != nil {
+					mres = r
+				}
+			}
+			rf := ReplayFile{Version: 1, Property: v.Property, Profile: pname, Seed: *fSeed, Run: run, RunSeed: rs, Scenario: msc, Plan: mplan, Clause: v.Clause, Detail: v.Detail}
+			if mres != nil {
+				rf.Digest = mres.Digest
+				if mv := hasClause(mres.Violations, v.Property, v.Clause); mv != nil {
+					rf.Detail = mv.Detail
+				}
+			} else {
+				// no recorded schedule reproduces it reliably: the replay file re-runs the exploration run
+				// itself (seed and run index decide everything the simulator owns)
+				_ = os.MkdirAll(*fReplays, 0o755)
+				path := filepath.Join(*fReplays, fmt.Sprintf("%s-%d-%d-%s.json", v.Property, *fSeed, run, v.Clause))
+				b, _ := json.MarshalIndent(map[string]any{"version": 1, "mode": "rerun", "property": v.Property, "profile": pname, "seed": *fSeed, "run": run, "tier": *fTier, "clause": v.Clause, "detail": v.Detail}, "", " ")
+				_ = os.WriteFile(path, b, 0o644)
+				out.Violations = append(out.Violations, ReportedV{Violation: v, Replay: path, Run: run})
+				continue
+			}
 			_ = os.MkdirAll(*fReplays, 0o755)
 			path := filepath.Join(*fReplays, fmt.Sprintf("%s-%d-%d-%s.json", v.Property, *fSeed, run, v.Clause))
-			b, _ := json.MarshalIndent(map[string]any{"version": 1, "mode": "rerun", "property": v.Property, "profile": pname, "seed": *fSeed, "run": run, "tier": *fTier, "clause": v.Clause, "detail": v.Detail}, "", " ")
+			b, _ := json.MarshalIndent(rf, "", " ")
 			_ = os.WriteFile(path, b, 0o644)
-			out.Violations = append(out.Violations, ReportedV{Violation: v, Replay: path, Run: run})
-			continue
+			out.Violations = append(out.Violations, ReportedV{Violation: Violation{v.Property, v.Clause, rf.Detail}, Replay: path, Run: run})
 		}
-		_ = os.MkdirAll(*fReplays, 0o755)
-		path := filepath.Join(*fReplays, fmt.Sprintf("%s-%d-%d-%s.json", v.Property, *fSeed, run, v.Clause))
-		b, _ := json.MarshalIndent(rf, "", " ")
-		_ = os.WriteFile(path, b, 0o644)
-		out.Violations = append(out.Violations, ReportedV{Violation: Violation{v.Property, v.Clause, rf.Detail}, Replay: path, Run: run})
-	}
 	}
 
 	enumerateFaults(t, *fProperty, out, handle)
